@@ -786,6 +786,19 @@ func child(outf string) {
 	}
 	api := httptest.NewServer(h)
 	defer api.Close()
+	// on a client2 server the old handlers are reachable too (a server started without the experiment on the same
+	// store): steps with "endpoint": "legacy" go there
+	legacyURL := api.URL
+	if f.client2 {
+		var s2 server.Server
+		h2, err := s2.GenerateRoutes(nil)
+		if err != nil {
+			fatal(outf, "routes: "+err.Error())
+		}
+		legacy := httptest.NewServer(h2)
+		defer legacy.Close()
+		legacyURL = legacy.URL
+	}
 
 	obs := map[string]any{"digests": f.digests, "reg": f.regHost, "cdn": f.cdnHost}
 	var stepObs []any
@@ -820,7 +833,28 @@ func child(outf string) {
 			}
 			stepObs = append(stepObs, map[string]any{"t": "plant", "store": snapshot(models, !f.big)})
 		case "pull":
-			stepObs = append(stepObs, f.pull(api.URL, models, st))
+			if ep, _ := st["endpoint"].(string); ep == "legacy" && f.client2 {
+				f.client2 = false
+				stepObs = append(stepObs, f.pull(legacyURL, models, st))
+				f.client2 = true
+			} else {
+				stepObs = append(stepObs, f.pull(api.URL, models, st))
+			}
+		case "delete":
+			// the old DeleteHandler (manifest removed, layers no other manifest uses removed)
+			name, _ := st["name"].(string)
+			b, _ := json.Marshal(map[string]any{"model": f.regHost + "/" + name})
+			rq, _ := http.NewRequest(http.MethodDelete, legacyURL+"/api/delete", bytes.NewReader(b))
+			rq.Header.Set("Content-Type", "application/json")
+			o := map[string]any{"t": "delete"}
+			if resp, err := http.DefaultClient.Do(rq); err != nil {
+				o["error"] = err.Error()
+			} else {
+				o["http_status"] = resp.StatusCode
+				resp.Body.Close()
+			}
+			o["store"] = snapshot(models, !f.big)
+			stepObs = append(stepObs, o)
 		case "par":
 			stepObs = append(stepObs, f.par(api.URL, models, st))
 		case "prune":
